@@ -439,6 +439,12 @@ theorem step_safe (env : Env) (i : Instr) (st : List Val) (tr : TRes) (hw : Stac
   case SELF ep t => simp [Spec.step, goodStack_cons, litOk, hg]
   case TRANSFER_TOKENS => exact safe_TRANSFER_TOKENS env st tr hw hg hty
   case CHECK_SIGNATURE => exact safe_CHECK_SIGNATURE env st tr hw hg hty
+  case EMPTY_BIG_MAP k v =>
+    simp only [Typing.step, Typing.stepMore, Typing.stepExt] at hty
+    split at hty
+    · rename_i hc
+      simp [Spec.step, Spec.stepMore, Spec.stepExt, hc, goodStack_cons, litOk, goodMap, litOks, strictSorted, hg]
+    · simp at hty
   case PACK =>
     exact safe_unop env st tr hw hg .PACK (Spec.unV env .PACK) (unTy .PACK) (fun _ _ => rfl) rfl
       (fun _ _ => rfl) (unV_safe env .PACK) hty
